@@ -822,12 +822,47 @@ def fam_customlog(rng, n, tier, mode="exact"):
                     L.append("probe %s" % nm)
                 cases.append(Case(L, ("cl", combo, flags), ["exhaustive", "n%d" % nn], mode,
                                   nontrivial=(nn >= 2)))
+    # a logging node with tracked consumers AND consumers built while it was temporarily not tracked
+    # (those edges carry no delta and must not count as deliveries): every creation position of the
+    # untracked consumers x orders in which the root lists its operands
+    for nt in (1, 2, 3):
+        for nu in (1, 2):
+            kinds = ["t"] * nt + ["u"] * nu
+            orders = sorted(set(itertools.permutations(kinds)))
+            for order in orders:
+                perms = list(itertools.permutations(range(nt + nu)))
+                if len(perms) > (4 if tier == "quick" else 12):
+                    perms = rng.sample(perms, 4 if tier == "quick" else 12)
+                for perm in perms:
+                    L = ["new l0 2 1,2", "tracked l0", "cop 2 n l0"]
+                    cons = []
+                    for i, k in enumerate(order):
+                        L += ["new w%d 2 %d,%d" % (i, 10 ** (i + 1), 2 * 10 ** (i + 1)), "tracked w%d" % i]
+                        if k == "u":
+                            L += ["stop n", "cop 1 k%d n w%d" % (i, i), "start n"]
+                        else:
+                            L.append("cop 1 k%d n w%d" % (i, i))
+                        cons.append("k%d" % i)
+                    L.append("cop 0 r %s" % ",".join(cons[j] for j in perm))
+                    L += ["backward r -", "log", "grad l0"] + ["grad w%d" % i for i in range(len(order))]
+                    L += ["probe n"] + ["probe %s" % c for c in cons]
+                    cases.append(Case(L, ("mixed", order, perm), ["mixed-tracking", "t%du%d" % (nt, nu)], mode))
     for _ in range(n):
         p = Prog(rng, mode, maxsize=2, maxrank=2)
         s = rand_shape(rng, 2, 2)
         for _ in range(rng.randint(1, 3)):
             p.new_leaf(s)
         for _ in range(rng.randint(2, 30 if tier == "quick" else 40)):
+            cops = [v for v in p.inter if v.startswith("c")]
+            if cops and rng.random() < 0.2:
+                v = rng.choice(sorted(cops))
+                same = [m for m in p.names() if p.shape[m] == p.shape[v]]
+                p.emit("stop %s" % v)
+                kind = rng.choice([0, 1])
+                args = [v, rng.choice(same)] if rng.random() < 0.5 else [rng.choice(same), v]
+                p.op_cop(kind=kind, args=args)
+                p.emit("start %s" % v)
+                continue
             p.op_cop()
         r = p.pick(lambda x: x in p.inter)
         p.backward(r)
@@ -1220,6 +1255,23 @@ def fam_transparent(rng, n, tier, mode="exact"):
             kinds.add("clonestart")
         edited += (["new zseed0 %s %s" % (dims_s(p.shape[root]), seed_vals), "backward %s zseed0" % start] if seeded
                    else ["backward %s -" % start])
+        if rng.random() < 0.4:
+            # a second pass on the same result: the twin keeps handles alive that the original never
+            # creates (fetched gradients, the seed passed as a clone of a live handle); holding or
+            # dropping a handle must not change what the second pass accumulates
+            kinds.add("twopass")
+            orig.append("backward %s seed0" % root if seeded else "backward %s -" % root)
+            cand = [v for v in sorted(p.leaf & set(p.shape)) if p.tr.get(v) and p.maxfan.get(v)]
+            rng.shuffle(cand)
+            for k, v in enumerate(cand[:2]):
+                if ("z" + v) not in dropped:
+                    edited.append("takegrad zheld%d z%s" % (k, v))
+                    kinds.add("heldgrad")
+            if seeded and rng.random() < 0.5:
+                edited.append("backwardc %s zseed0" % start)
+                kinds.add("seedclone")
+            else:
+                edited.append("backward %s zseed0" % start if seeded else "backward %s -" % start)
         L = orig + edited
         for v in sorted(names):
             if ("z" + v) not in dropped:
